@@ -56,6 +56,7 @@ type travRec struct {
 }
 
 type qrun struct {
+	mutex   bool
 	q       queue.Queue
 	h       history
 	travs   []*travRec
@@ -250,6 +251,9 @@ func genQueueProgram(rng *rand.Rand, family string) (ths []qthread, singleProduc
 			var ops []qop
 			for k := 1 + rng.Intn(4); k > 0; k-- {
 				kinds := []string{"offer", "offer", "poll", "poll", "peek", "isempty"}
+				if family == "mlin" {
+					kinds = append(kinds, "size", "size", "isempty")
+				}
 				if family == "mix" {
 					kinds = append(kinds, "size", "iter", "offer", "poll")
 				}
@@ -323,6 +327,14 @@ func (r *qrun) monitorLin() string {
 			}
 			ops = append(ops, linOp{o.inv, o.ret, "isempty=" + o.res, func(s string) (string, bool) {
 				return s, (s == "") == (o.res == "true")
+			}})
+		case "size":
+			// on the mutex queue Size is as linearizable as the other operations (C19)
+			if o.ret == 0 || !r.mutex {
+				continue
+			}
+			ops = append(ops, linOp{o.inv, o.ret, "size=" + o.res, func(s string) (string, bool) {
+				return s, o.res == fmt.Sprintf("n%d", strings.Count(s, ","))
 			}})
 		}
 	}
@@ -511,11 +523,11 @@ func runQueue(fs *flag.FlagSet, args []string) {
 		if family == "any" {
 			family = []string{"lin", "iter", "mix", "seq"}[rng.Intn(4)]
 		}
-		if *impl == "mutex" && (family == "iter" || family == "mix") {
-			family = "lin"
+		if *impl == "mutex" {
+			family = "mlin"
 		}
 		ths, single := genQueueProgram(rng, family)
-		r := &qrun{}
+		r := &qrun{mutex: *impl == "mutex"}
 		layers := map[string]bool{"q": true}
 		if *impl == "mutex" {
 			r.q = queue.NewMutexLinkedQueue()
